@@ -1,6 +1,7 @@
 (* Extraction of the executable models.  ExtrOcamlBasic only: bool/option/list/prod/unit/
    sumbool map to their OCaml counterparts; N, positive, Z, nat stay extracted datatypes. *)
-From Cas Require Import History.
+From Cas Require Import History Conc.
+From Cas Require OpenLock.
 Require Extraction.
 Require ExtrOcamlBasic.
 Extraction Language OCaml.
@@ -8,4 +9,5 @@ Extraction "model.ml" run_hist trace_of step crash_fs lose replay_calls
   enc_op dec_op enc_snapshot dec_snapshot from_raw key_valid key_cmp parse_path hexpath hex_enc
   parse_segment read_segment_lazy enc_record get_range read_blob_range slice
   scan_orphans open_store open_with_recover empty_fs init_world
-  enc_settings dec_settings load_entries lex_cmp sm_ins utf8_valid.
+  enc_settings dec_settings load_entries lex_cmp sm_ins utf8_valid
+  cstep crun init_c all_finished enabled OpenLock.results.
